@@ -75,6 +75,8 @@ class DictV:
         d = DictV(self.has, self.val, self.vkind, self.kkind, self._ne)
         if hasattr(self, 'extra'):
             d.extra = self.extra
+        if hasattr(self, 'origin'):
+            d.origin = self.origin
         d._len = self._len
         return d
 
@@ -88,6 +90,8 @@ class SetV:
     def copy(self):
         c = SetV(self.has, self.kkind, self._ne)
         c._len = self._len
+        if hasattr(self, 'origin'):
+            c.origin = self.origin
         return c
 
 
@@ -1101,7 +1105,9 @@ class Exec:
         if len(e.args) == 1 and not e.keywords:
             v = self.ev(e.args[0], p)
             if isinstance(v, DictV):
-                return v.copy()
+                r = v.copy()
+                r.__dict__.pop('origin', None)      # `dict(d)` is a new object
+                return r
         if e.args or e.keywords:
             raise Unsupported('dict(...)')
         d = self.empty_dict(e)
@@ -1117,7 +1123,9 @@ class Exec:
         if e.args:
             v = self.ev(e.args[0], p)
             if isinstance(v, SetV):
-                return v.copy()
+                r = v.copy()
+                r.__dict__.pop('origin', None)      # `set(s)` is a new object
+                return r
             if isinstance(v, ObjV) and v.cls == 'mapabs':
                 return self.set_of_mapabs_filter(v, p, e.lineno)
             raise Unsupported('set(x)')
